@@ -14,6 +14,17 @@ BASELINE_OFF = (
 
 # id -> (level, technique, level text, level note, design ref)
 T = {
+    "C08": (
+        "model_checking",
+        "exhaustive enumeration of grid shapes x admissible right-hand-side bases through the real linear_solve of every formulation/back-end; explicit-state search over call histories (factorisation reuse)",
+        "For every grid shape in the bound and two face-weight patterns the real linear_solve of each formulation/back-end is run on a complete "
+        "basis of the admissible right-hand sides (linear map: decides all right-hand sides) and each solution is checked against an independently "
+        "assembled full system and against the full direct solve, component-wise. Reuse of cached factorisations is explored as call "
+        "sequences over {M1,M2} x {r1,r2} x reuse to depth 3 on one object, each output compared with a fresh object. End-to-end distances of the "
+        "C04 lattice are compared across formulations.",
+        "Trusted: the dense reference assembly in props/c08.py. Iterative back-ends compared at 1e-6 on weights within one decade (AMG stalls on wider ranges). PETSc absent.",
+        "DESIGN.md §3 C08",
+    ),
     "C18": (
         "exploration",
         "exhaustive enumeration of the metadata lattice / byte-string formats / correction configurations through real save-load cycles, bitwise comparison",
